@@ -51,15 +51,15 @@ type vf10HS struct {
 }
 
 type vf10HSResult struct {
-	stream     []byte
-	want       []byte // payload of the valid packets in the stream
-	markFound  bool   // the stream got past the length test and the mark search of the response parser
-	dialOK     bool
-	dialErr    error
-	readErr    error
-	consumed   int64
-	delivered  int
-	respLen    int
+	stream    []byte
+	want      []byte // payload of the valid packets in the stream
+	markFound bool   // the stream got past the length test and the mark search of the response parser
+	dialOK    bool
+	dialErr   error
+	readErr   error
+	consumed  int64
+	delivered int
+	respLen   int
 }
 
 func (h *vf10HS) describe(r *vf10HSResult) string {
